@@ -29,6 +29,7 @@ def dispatch (l : Line) : List Verdict :=
   | "hstart" => [Verdict.ok]
   | "glob" => handleGlob l
   | "needslogin" => handleNeedsLogin l
+  | "cachesound" => handleCacheSound l
   | "alog" => handleALog l
   | "route" => handleRoute l
   | "guard" => handleGuard l
